@@ -153,8 +153,11 @@ size_t SubjectRouter::Node::notify(RoutingLevelView levelView, Args &&...args) {
         if (nextLevel.isRegex()) {
             size_t notifyCount = 0;
 
+            // every matching child gets the arguments as they were passed:
+            // keep `Args` as is (`args...` alone would be re-deduced as lvalue
+            // references) and hand each child its own copy of by-value arguments
             for (auto & [name, node] : m_children)
-                notifyCount += node.notify(nextLevel, args...);
+                notifyCount += node.template notify<Args...>(nextLevel, static_cast<Args>(args)...);
 
             return notifyCount;
         } else {
